@@ -4,23 +4,10 @@
 //!   hv shard <ID> <tier> <seed> <i> <n>        (internal)
 //!   hv one <program> [input-bytes-comma-separated]   (debug: run everything on one program)
 
-mod bcvalid;
-mod bf;
-mod child;
-mod engine;
-mod exec;
-mod galloc;
-mod judge;
-mod progs;
-mod props;
-mod refmodel;
-mod verdict;
 
-use engine::{DbgShare, DriveOpts, Property, Tier};
-use progs::PP;
-
-/// Tier of the current run (a few generators enumerate more in the thorough tier).
-pub static TIER_THOROUGH: std::sync::atomic::AtomicBool = std::sync::atomic::AtomicBool::new(false);
+use hpbf_verif::engine::{DbgShare, DriveOpts, Property, Tier};
+use hpbf_verif::progs::PP;
+use hpbf_verif::{bf, child, engine, exec, galloc, props, refmodel, TIER_THOROUGH};
 
 #[global_allocator]
 static GA: galloc::G = galloc::G;
